@@ -335,6 +335,8 @@ pub fn run(p: &Params) -> Run {
     }
     let _ = std::fs::remove_file(jpath);
     run.notes.push("statements generated without DISTINCT (templates + generator; select, join, aggregates with/without HAVING, some with LIMIT) and run with and without DISTINCT over inputs drawn with repetition from a small pool of lines that differ in one column, only by NULL, by -0.0/0.0/nan spelling (recurrences after gaps), 1-2 files; oracle on the implementation's typed rows: DISTINCT q = first occurrences of q under the property's own value equality (batch, engine level, and every incremental result table separately)".to_owned());
+    // the end-to-end stream: the same property seen from raw texts and raw file bytes (`e2e.rs`, Lean `Pipeline.runText`)
+    crate::e2e::stream(&mut run, &mut Rng::new(p.seed ^ 0xe2e08), p.n(250, 3000), "distinct");
     run
 }
 
